@@ -293,6 +293,58 @@ theorem smear_even_axis_deviation (img : Arr ℝ) (m n : ℕ) (hm : img.s0 = m) 
   have h := blur_deviation_le img (smearKernel m n dist ang ps os) m n hm hn hm0 hn0 i j
   exact ⟨h.1, h.2, fun u v hu hv => smear_oddPart_support m n hm0 hn0 dist ang ps os u v hu hv⟩
 
+/-- **the bound survives the renormalisation.** For an image with non-negative total the renormalised smear output `blur·Σimg/Σblur`
+differs from the equally renormalised `|c_H|` by at most the same Nyquist-line bound: the factor `Σimg/Σblur` lies in `[0, 1]`
+(`Σblur ≥ Σimg` by unit DC gain and the triangle inequality). -/
+theorem smear_renormalised_deviation (img : Arr ℝ) (m n : ℕ) (hm : img.s0 = m) (hn : img.s1 = n) (hm0 : 0 < m) (hn0 : 0 < n)
+    (hS : 0 < arrSum img) (dist ang ps os : ℝ) (i j : ℤ) :
+    abs ((smear ℂ img dist ang ps os).get i j
+        - abs ((conv img (evenPart (smearKernel m n dist ang ps os) m n)).get i j).re
+          * (arrSum img / arrSum (blurCore ℂ img (smearKernel m n dist ang ps os))))
+      ≤ (∑ v ∈ range n, ∑ u ∈ range m, ‖(fft2 (R := ℝ) (toCx (K := ℂ) img)).get u v‖
+          * |(oddPart (smearKernel m n dist ang ps os) m n).get u v|) / ((m : ℝ) * n) := by
+  have hdev := (smear_even_axis_deviation img m n hm hn hm0 hn0 dist ang ps os i j).2.1
+  have hdc := (kernel_dc_gain_one m n (by omega) (by omega) os 0 dist ang ps).2.2
+  have hT := blurCore_total_ge img (smearKernel m n dist ang ps os) m n hm hn hm0 hn0
+  rw [hdc, one_mul, abs_of_pos hS] at hT
+  have hTpos : 0 < arrSum (blurCore ℂ img (smearKernel m n dist ang ps os)) := lt_of_lt_of_le hS hT
+  have hfac0 : 0 ≤ arrSum img / arrSum (blurCore ℂ img (smearKernel m n dist ang ps os)) := div_nonneg hS.le hTpos.le
+  have hfac1 : arrSum img / arrSum (blurCore ℂ img (smearKernel m n dist ang ps os)) ≤ 1 := (div_le_one hTpos).mpr hT
+  have hget : (smear ℂ img dist ang ps os).get i j
+      = (blurCore ℂ img (smearKernel m n dist ang ps os)).get i j
+        * (arrSum img / arrSum (blurCore ℂ img (smearKernel m n dist ang ps os))) := by
+    rw [smear_def, renorm_get, hm, hn, mul_div_assoc]
+  rw [hget, ← sub_mul, abs_mul, abs_of_nonneg hfac0]
+  calc _ ≤ abs ((blurCore ℂ img (smearKernel m n dist ang ps os)).get i j
+          - abs ((conv img (evenPart (smearKernel m n dist ang ps os) m n)).get i j).re) * 1 :=
+        mul_le_mul_of_nonneg_left hfac1 (abs_nonneg _)
+    _ ≤ _ := by rw [mul_one]; exact hdev
+
+/-- **`smear(angle=None)` is the smear along the drawn direction.** The `angle is None` branch (regenerated from the source) uses the
+draw `uniform(0, 2π) = 2π·u` of the global generator *as radians*; it is exactly `smear` with the given angle `360·u` degrees — so
+the random direction covers the full turn and no degree/radian conversion is applied twice or missed. -/
+theorem smear_none_is_smear_at_drawn_angle (img : Arr ℝ) (dist ps os u : ℝ) :
+    smearNone ℂ img dist ps os u = smear ℂ img dist (360 * u) ps os := by
+  have hk : smearKernelNone (R := ℝ) img.s0 img.s1 dist ps os u = smearKernel img.s0 img.s1 dist (360 * u) ps os := by
+    unfold smearKernelNone smearKernel
+    congr 1
+    funext i j
+    simp only [Gen.bwSmearKernelNone, Gen.bwSmearKernel, RealLike.ofInt, BlurLike.pi]
+    have e : ((0 : ℤ) : ℝ) + (((2 : ℤ) : ℝ) * Real.pi - ((0 : ℤ) : ℝ)) * u = 360 * u * (Real.pi / ((180 : ℤ) : ℝ)) := by
+      push_cast; ring
+    rw [e]
+  unfold smearNone smear
+  rw [hk]
+
+/-- **`pixelate` = `pixel` then `rescale` by `1/oversample`**: the wiring regenerated from `detector.pixelate` gives the output
+shape `(⌈s0/os⌉, ⌈s1/os⌉)` and calls the rescale with spline order 3, mode `nearest`, `unitary=True` (the interpolation itself —
+`scipy.ndimage.map_coordinates` — is not modelled; total and values are evaluated by the oracle). -/
+theorem pixelate_wiring (s0 s1 : ℤ) (os : ℝ) :
+    pixelateShape (R := ℝ) Int.ceil s0 s1 os = (Int.ceil ((s0 : ℝ) / os), Int.ceil ((s1 : ℝ) / os)) ∧
+    Gen.bwPixelateOrder = 3 ∧ Gen.bwPixelateModeNearest = true ∧ Gen.bwPixelateUnitary = true := by
+  refine ⟨?_, rfl, rfl, rfl⟩
+  simp only [pixelateShape, Gen.bwPixelateScale, RealLike.ofInt, Int.cast_one, mul_one_div]
+
 /-- **the blur does not depend on the size of the physical unit.** Expressing the extent and the pixel scale in any other unit
 (both multiplied by `k ≠ 0`: metres, nanometres, radians, milli-arcseconds) gives exactly the same output — in particular a
 multi-pixel jitter given in nano-scale units is not "close to zero". -/
